@@ -4,6 +4,7 @@ from sx import spec as SP, obs as O, term as T
 from . import common as C
 
 ID = 'C13'
+AGEABLE = True        # a quarter of the configurations build their operands as objects with a past (props/common.py)
 HANDLES_EXC = True
 ENCODED = ['Fxp.__invert__', 'Fxp.__and__', 'Fxp.__or__', 'Fxp.__xor__', 'Fxp.__rand__', 'Fxp.__ror__', 'Fxp.__rxor__', 'utils.binary_invert',
            'utils.binary_and', 'utils.binary_or', 'utils.binary_xor', 'utils.twos_complement_repr', 'utils.array_support', 'Fxp.deepcopy', 'Fxp.set_val']
